@@ -215,6 +215,8 @@ func (r *run) callerLoop(c *callerState, ready chan struct{}) {
 			switch {
 			case sp.kind == "vecobj":
 				ht = reflect.TypeOf([]*objects.FutureSalt{})
+			case reqKind(sp) == 2:
+				ht = reflect.TypeOf([]string{})
 			case wide(sp):
 				ht = reflect.TypeOf([]int64{})
 			default:
@@ -260,6 +262,18 @@ func bareVec64(p int64) []int64 {
 	}
 	if len(v) > 0 {
 		v[len(v)-1] = p
+	}
+	return v
+}
+
+// bareVecStr: strings of 0..3 bytes (one word on the wire each, a wider Go value in memory), the last one carries p
+func bareVecStr(p int64) []string {
+	v := make([]string, vecLen(p))
+	for i := range v {
+		v[i] = "abc"[:i%4]
+	}
+	if len(v) > 0 {
+		v[len(v)-1] = tok(p)
 	}
 	return v
 }
@@ -329,6 +343,15 @@ func showResult(v interface{}, err error) string {
 		p := x[len(x)-1]
 		if !reflect.DeepEqual(x, bareVec64(p)) {
 			return fmt.Sprintf("vecbare:garbled(len=%d first=%d last=%d)", len(x), x[0], p)
+		}
+		return "vecbare:" + tok(p)
+	case []string:
+		if len(x) == 0 {
+			return "vecbare:empty"
+		}
+		p, perr := strconv.ParseInt(x[len(x)-1], 10, 64)
+		if perr != nil || !reflect.DeepEqual(x, bareVecStr(p)) {
+			return fmt.Sprintf("vecbare:garbled(len=%d first=%q last=%q)", len(x), x[0], x[len(x)-1])
 		}
 		return "vecbare:" + tok(p)
 	case []*objects.FutureSalt:
@@ -435,10 +458,10 @@ func request(sp callSpec) tl.Object {
 	return &objects.PingParams{PingID: sp.token}
 }
 
-// wide: the bare vector of this call has 64-bit elements (hint []int64)
-func wide(sp callSpec) bool { return reqKind(sp) != 0 }
+// wide: the bare vector of this call has 64-bit elements (hint []int64); request kind 2: short strings (hint []string)
+func wide(sp callSpec) bool { return reqKind(sp) == 1 }
 
-func resultBody(sp callSpec, wide64 bool) []byte {
+func resultBody(sp callSpec, flavour int) []byte {
 	p := sp.token
 	switch sp.kind {
 	case "obj":
@@ -448,8 +471,15 @@ func resultBody(sp callSpec, wide64 bool) []byte {
 	case "bool":
 		return refserver.Bool(p&1 == 1)
 	case "vecbare":
-		if wide64 {
+		switch flavour {
+		case 1:
 			return refserver.VectorInt64(bareVec64(p))
+		case 2:
+			b := append(rqLE32(rqVectorCrc), rqLE32(uint32(vecLen(p)))...)
+			for _, x := range bareVecStr(p) {
+				b = append(b, refserver.TLBytes([]byte(x))...)
+			}
+			return b
 		}
 		return refserver.VectorInt32(bareVec32(p))
 	case "vecobj":
@@ -975,7 +1005,11 @@ func (r *run) build(b *bodySpec) ([]byte, string) {
 		if b.op == "err" {
 			sp.kind = "err"
 		}
-		body := resultBody(sp, cs != nil && wide(cs.spec))
+		flavour := 0
+		if cs != nil {
+			flavour = reqKind(cs.spec)
+		}
+		body := resultBody(sp, flavour)
 		if b.gz {
 			body = refserver.Gzip(body)
 		}
